@@ -302,36 +302,68 @@ theorem take_nil_R {q : Q} {s : Spec} (h : R q s) : R q (s.apply (.take [])) := 
   have := mem_shift_marks (n := 0) (h.marks m hm) (Nat.zero_le _)
   simpa [Spec.apply] using this
 
-theorem step_R {q : Q} {s : Spec} (op : Op) (h : R q s) :
-    ∃ q' ev, q.step? op = some (q', ev) ∧ s.Legal ev ∧ R q' (s.apply ev) := by
-  cases op with
-  | write b => exact ⟨q.write b, .write b, rfl, trivial, write_R b h⟩
-  | flush =>
-    obtain ⟨q', hq, hr, _⟩ := flush_R h
-    exact ⟨q', .flush, by simp [Q.step?, hq], trivial, hr⟩
-  | read n =>
-    obtain ⟨sl, hsl, _, _⟩ := asSlice_of_R h
-    obtain ⟨q', sl', hsl', hq, hleg, hr, _⟩ := consume_R (min n sl.length) h
-    have e : sl' = sl := by rw [hsl] at hsl'; exact (Option.some.inj hsl').symm
-    subst e
-    exact ⟨q', .take (sl'.take (min n sl'.length)), by simp [Q.step?, Q.read?, hsl, hq], hleg, hr⟩
-  | consume n =>
-    obtain ⟨q', sl, hsl, hq, hleg, hr, _⟩ := consume_R n h
-    exact ⟨q', .take (sl.take n), by simp [Q.step?, hsl, hq], hleg, hr⟩
-  | consumeWith k =>
-    obtain ⟨q', sl, hsl, hq, hleg, hr, _⟩ := consume_R k h
-    exact ⟨q', .take (sl.take k), by simp [Q.step?, Q.consumeWith?, hsl, hq], hleg, hr⟩
-  | consumeWithErr =>
-    obtain ⟨sl, hsl, _, _⟩ := asSlice_of_R h
-    exact ⟨q, .take [], by simp [Q.step?, Q.consumeWith?, hsl], by simp [Spec.Legal], take_nil_R h⟩
-  | clear =>
-    obtain ⟨q', hq, hleg, hr, _⟩ := clear_R h
-    exact ⟨q', .drop q'.length, by simp [Q.step?, hq], hleg, hr⟩
+/-- the stream never holds more than was written into it -/
+theorem size_apply_le {s : Spec} {ev : Ev} (hl : s.Legal ev) :
+    (s.apply ev).size ≤ s.size + (written [ev]).length := by
+  cases ev with
+  | write b => simp [Spec.apply, Spec.size, written]; omega
+  | flush => simp [Spec.apply, Spec.size, written]
+  | take o =>
+    have : o.length ≤ s.buf.length := hl.length_le
+    simp [Spec.apply, Spec.size, written]; omega
+  | drop k => simp [Spec.apply, Spec.size, written]; omega
 
 theorem run_append (s : Spec) (a b : List Ev) : s.run (a ++ b) = (s.run a).run b := by
   simp [Spec.run, List.foldl_append]
 
 theorem run_cons (s : Spec) (e : Ev) (es : List Ev) : s.run (e :: es) = (s.apply e).run es := rfl
+
+theorem written_cons (e : Ev) (es : List Ev) : written (e :: es) = written [e] ++ written es := by
+  cases e <;> simp [written]
+
+theorem size_run_le {s : Spec} {evs : List Ev} (ha : s.Accepts evs) :
+    (s.run evs).size ≤ s.size + (written evs).length := by
+  induction evs generalizing s with
+  | nil => simp [Spec.run, written]
+  | cons e es ih =>
+    rw [run_cons, written_cons]
+    have h1 := size_apply_le ha.1
+    have h2 := ih ha.2
+    simp only [List.length_append]
+    omega
+
+theorem step_R {q : Q} {s : Spec} (op : Op) (h : R q s) (hb : s.size + (opBytes op).length ≤ usizeMax) :
+    ∃ q' ev, q.step? op = some (q', ev) ∧ s.Legal ev ∧ R q' (s.apply ev) ∧ written [ev] = opBytes op ∧
+      (isClear op = false → noDrop [ev]) := by
+  have hsz : s.size ≤ usizeMax := by omega
+  cases op with
+  | write b =>
+    obtain ⟨hw, hr⟩ := write_R b h hb
+    exact ⟨writeN q b, .write b, by simp [Q.step?, hw], trivial, hr, by simp [written, opBytes], by simp [noDrop]⟩
+  | flush =>
+    obtain ⟨q', hq, hr, _⟩ := flush_R h
+    exact ⟨q', .flush, by simp [Q.step?, hq], trivial, hr, by simp [written, opBytes], by simp [noDrop]⟩
+  | read n =>
+    obtain ⟨sl, hsl, _, _⟩ := asSlice_of_R h
+    obtain ⟨q', sl', hsl', hq, hleg, hr, _⟩ := consume_R (min n sl.length) h hsz
+    have e : sl' = sl := by rw [hsl] at hsl'; exact (Option.some.inj hsl').symm
+    subst e
+    exact ⟨q', .take (sl'.take (min n sl'.length)), by simp [Q.step?, Q.read?, hsl, hq], hleg, hr,
+      by simp [written, opBytes], by simp [noDrop]⟩
+  | consume n =>
+    obtain ⟨q', sl, hsl, hq, hleg, hr, _⟩ := consume_R n h hsz
+    exact ⟨q', .take (sl.take n), by simp [Q.step?, hsl, hq], hleg, hr, by simp [written, opBytes], by simp [noDrop]⟩
+  | consumeWith k =>
+    obtain ⟨q', sl, hsl, hq, hleg, hr, _⟩ := consume_R k h hsz
+    exact ⟨q', .take (sl.take k), by simp [Q.step?, Q.consumeWith?, hsl, hq], hleg, hr,
+      by simp [written, opBytes], by simp [noDrop]⟩
+  | consumeWithErr =>
+    obtain ⟨sl, hsl, _, _⟩ := asSlice_of_R h
+    exact ⟨q, .take [], by simp [Q.step?, Q.consumeWith?, hsl], by simp [Spec.Legal], take_nil_R h,
+      by simp [written, opBytes], by simp [noDrop]⟩
+  | clear =>
+    obtain ⟨q', hq, hleg, hr, _⟩ := clear_R h
+    exact ⟨q', .drop q'.length, by simp [Q.step?, hq], hleg, hr, by simp [written, opBytes], by simp [isClear]⟩
 
 theorem accepts_append (s : Spec) (a b : List Ev) :
     s.Accepts (a ++ b) ↔ s.Accepts a ∧ (s.run a).Accepts b := by
@@ -339,27 +371,66 @@ theorem accepts_append (s : Spec) (a b : List Ev) :
   | nil => simp [Spec.Accepts, Spec.run]
   | cons e es ih => simp [Spec.Accepts, run_cons, ih, and_assoc]
 
-theorem sim_one {s : Spec} {q' : Q} {ev : Ev} (hl : s.Legal ev) (hr : R q' (s.apply ev)) :
-    Sim s (some (q', [ev])) :=
-  ⟨q', [ev], rfl, ⟨hl, trivial⟩, hr⟩
+theorem written_append (a b : List Ev) : written (a ++ b) = written a ++ written b := by
+  induction a with
+  | nil => simp [written]
+  | cons e es ih => cases e <;> simp [written, ih]
 
-/-- sequencing of simulated calls -/
-theorem sim_bind {s : Spec} {q1 : Q} {e1 : List Ev} (h1 : s.Accepts e1) (r1 : R q1 (s.run e1))
-    {r : Option (Q × List Ev)} (h2 : Sim (s.run e1) r) :
-    ∃ q2 e2, r = some (q2, e2) ∧ s.Accepts (e1 ++ e2) ∧ R q2 (s.run (e1 ++ e2)) := by
-  obtain ⟨q2, e2, hr, ha, hR⟩ := h2
-  exact ⟨q2, e2, hr, (accepts_append _ _ _).2 ⟨h1, ha⟩, by rw [run_append]; exact hR⟩
+theorem noDrop_append (a b : List Ev) : noDrop (a ++ b) ↔ noDrop a ∧ noDrop b := by
+  induction a with
+  | nil => simp [noDrop]
+  | cons e es ih => cases e <;> simp [noDrop, ih]
 
-theorem run_R {q : Q} {s : Spec} (ops : List Op) (h : R q s) : Sim s (q.run? ops) := by
+theorem sim_one {s : Spec} {q' : Q} {ev : Ev} {w : List UInt8} {nd : Bool} (hl : s.Legal ev)
+    (hr : R q' (s.apply ev)) (hw : written [ev] = w) (hn : nd = true → noDrop [ev]) :
+    Sim s (some (q', [ev])) w nd :=
+  ⟨q', [ev], rfl, ⟨hl, trivial⟩, hr, hw, hn⟩
+
+theorem sim_nil {q : Q} {s : Spec} (h : R q s) (nd : Bool) : Sim s (some (q, [])) [] nd :=
+  ⟨q, [], rfl, trivial, h, rfl, fun _ => trivial⟩
+
+/-- sequencing of simulated calls: the second call runs in the state the first one left -/
+theorem sim_seq {s : Spec} {e1 : List Ev} {w1 w2 : List UInt8} {n1 n2 : Bool}
+    (ha1 : s.Accepts e1) (hw1 : written e1 = w1) (hn1 : n1 = true → noDrop e1)
+    {r2 : Option (Q × List Ev)} (h2 : Sim (s.run e1) r2 w2 n2) :
+    ∃ q2 e2, r2 = some (q2, e2) ∧ s.Accepts (e1 ++ e2) ∧ R q2 (s.run (e1 ++ e2)) ∧
+      written (e1 ++ e2) = w1 ++ w2 ∧ ((n1 && n2) = true → noDrop (e1 ++ e2)) := by
+  obtain ⟨q2, e2, hr2, ha2, hR2, hw2, hn2⟩ := h2
+  refine ⟨q2, e2, hr2, (accepts_append _ _ _).2 ⟨ha1, ha2⟩, by rw [run_append]; exact hR2,
+    by rw [written_append, hw1, hw2], ?_⟩
+  intro hn
+  simp only [Bool.and_eq_true] at hn
+  exact (noDrop_append _ _).2 ⟨hn1 hn.1, hn2 hn.2⟩
+
+/-- the byte budget left after a simulated call -/
+theorem sim_budget {s : Spec} {e1 : List Ev} {w1 : List UInt8} (ha1 : s.Accepts e1) (hw1 : written e1 = w1)
+    {k : Nat} (hb : s.size + (w1.length + k) ≤ usizeMax) : (s.run e1).size + k ≤ usizeMax := by
+  have := size_run_le ha1
+  rw [hw1] at this
+  omega
+
+theorem run_R {q : Q} {s : Spec} (ops : List Op) (h : R q s)
+    (hb : s.size + (opsWritten ops).length ≤ usizeMax) :
+    Sim s (q.run? ops) (opsWritten ops) (ops.all fun op => !isClear op) := by
   induction ops generalizing q s with
-  | nil => exact ⟨q, [], rfl, trivial, h⟩
+  | nil => exact sim_nil h _
   | cons op ops ih =>
-    obtain ⟨q1, ev, hs, hl, hr⟩ := step_R op h
-    obtain ⟨q2, evs, hrun, ha, hR⟩ := ih hr
-    exact ⟨q2, ev :: evs, by simp [Q.run?, hs, hrun], ⟨hl, ha⟩, hR⟩
+    have hsplit : opsWritten (op :: ops) = opBytes op ++ opsWritten ops := by simp [opsWritten]
+    rw [hsplit, List.length_append] at hb
+    obtain ⟨q1, ev, hs, hl, hr, hw, hn⟩ := step_R op h (by omega)
+    have hsz := size_apply_le hl
+    rw [hw] at hsz
+    obtain ⟨q2, evs, hrun, ha, hR, hw2, hn2⟩ := ih hr (by omega)
+    refine ⟨q2, ev :: evs, by simp [Q.run?, hs, hrun], ⟨hl, ha⟩, hR, ?_, ?_⟩
+    · rw [written_cons, hw, hw2, hsplit]
+    · intro hall
+      simp only [List.all_cons, Bool.and_eq_true, Bool.not_eq_true'] at hall
+      have a := hn hall.1
+      have b := hn2 hall.2
+      exact (noDrop_append [ev] evs).2 ⟨a, b⟩
 
 theorem R_init : R Q.new Spec.init :=
-  ⟨rfl, rfl, rfl, by intro m hm; simp [boundaries, Q.new] at hm⟩
+  ⟨rfl, rfl, rfl, by intro m hm; simp [boundaries, Q.new] at hm, by simp [Q.new]⟩
 
 /-! ### conservation in the specification stream -/
 
@@ -406,7 +477,8 @@ theorem conserve_sublist (s : Spec) (evs : List Ev) (ha : s.Accepts evs) :
         (List.Sublist.append (List.Sublist.refl _) (List.take_sublist _ _)) _
 
 /-- reading chunk by chunk returns exactly `abs` -/
-theorem drain_R {q : Q} {s : Spec} (h : R q s) : drain? q.chunks.length q = some (abs q) := by
+theorem drain_R {q : Q} {s : Spec} (h : R q s) (hsz : s.size ≤ usizeMax) :
+    drain? q.chunks.length q = some (abs q) := by
   generalize hn : q.chunks.length = n
   induction n generalizing q s with
   | zero =>
@@ -416,12 +488,14 @@ theorem drain_R {q : Q} {s : Spec} (h : R q s) : drain? q.chunks.length q = some
     obtain ⟨sl, hsl, hpre, _⟩ := asSlice_of_R h
     have hlen : sl.length ≤ q.length := by rw [h.len_eq, ← h.abs_eq]; exact hpre.length_le
     have hmin : min q.length sl.length = sl.length := by omega
-    obtain ⟨q', sl', hsl', hq, _, hr, habs, hcnt⟩ := consume_R (min q.length sl.length) h
+    obtain ⟨q', sl', hsl', hq, hleg, hr, habs, hcnt⟩ := consume_R (min q.length sl.length) h hsz
+    have hsz' := size_apply_le hleg
+    simp only [written, List.length_nil, Nat.add_zero, List.append_nil] at hsz'
     have e : sl' = sl := by rw [hsl] at hsl'; exact (Option.some.inj hsl').symm
     subst e
     rw [hmin] at hq habs hcnt
     simp only [Nat.lt_irrefl, if_false, hn] at hcnt
-    have hd := ih hr (by omega)
+    have hd := ih hr (by omega) (by omega)
     simp only [drain?, Q.read?, hsl, hmin, hq, hd, habs]
 
 end SurfProofs.C16Spec
